@@ -73,14 +73,15 @@ def readRhs : List String → RG → List Sym → RG × List Sym
     | none => let (s', k) := s.addNt nm; readRhs rest s' (acc ++ [.n k])
 
 /-- the translation array: returns `(order, transLen)` -/
-def readTransl (rhsLen : Nat) : List Nat → Nat → List (Option Nat) → Nat →
+def readTransl (rhsLen : Nat) (hasAnode : Bool) : List Nat → Nat → List (Option Nat) → Nat →
     Except ErrCode (List (Option Nat) × Nat)
   | [], _, order, tl => .ok (order, tl)
   | el :: rest, i, order, tl =>
     if el ≥ rhsLen then
-      if el ≠ NIL_TRANSL then .error 12 else readTransl rhsLen rest (i + 1) order (tl + 1)
+      if el ≠ NIL_TRANSL then .error 12
+      else readTransl rhsLen hasAnode rest (i + 1) order (if hasAnode then tl + 1 else tl)
     else if (order.getD el none).isSome then .error 13
-    else readTransl rhsLen rest (i + 1) (order.set el (some i)) (tl + 1)
+    else readTransl rhsLen hasAnode rest (i + 1) (order.set el (some i)) (tl + 1)
 
 def AXIOM_NAME := "$S"
 def END_MARKER_NAME := "$eof"
@@ -112,7 +113,7 @@ def readRules : List RawRule → RG → Except ErrCode RG
     let (s, rhs) := readRhs rr.rhs s []
     let (order, tl) ← match rr.transl with
       | none => pure (List.replicate rhs.length none, 0)
-      | some tr => readTransl rhs.length tr 0 (List.replicate rhs.length none) 0
+      | some tr => readTransl rhs.length rr.anode.isSome tr 0 (List.replicate rhs.length none) 0
     let r : Rule := { lhs := lhsN, rhs := rhs, anode := rr.anode,
                       cost := if rr.anode.isSome then rr.cost.toNat else 0,
                       transLen := tl, order := order }
